@@ -18,6 +18,40 @@ var (
 	epochs = []int64{0, int64(time.Hour), int64(24 * time.Hour), -int64(time.Hour), int64(36 * time.Hour), int64(10 * 24 * time.Hour), -t2000, -t2000 - int64(time.Hour)}
 )
 
+// Bias is a per-run tilt of the command mix (swarm style): a run with Lists
+// set spends a third of its commands on the list-valued members of one
+// retention policy and database - subscriptions and continuous queries of
+// db0.rp0 - so that lists of several entries get built and entries other than
+// the last removed.
+type Bias struct{ Lists bool }
+
+// GenBias draws the tilt of a run.
+func GenBias(t *rapid.T, l string) Bias {
+	return Bias{Lists: rapid.IntRange(0, 3).Draw(t, l+".lists") == 0}
+}
+
+// GenCmdBiased is GenCmd under a run's tilt.
+func GenCmdBiased(t *rapid.T, l string, b Bias) Cmd {
+	if b.Lists {
+		switch k := rapid.IntRange(0, 17).Draw(t, l+".lk"); {
+		case k == 0:
+			return CmdCreateDatabase("db0", nil)
+		case k == 1:
+			return CmdCreateRP("db0", "rp0", 0, time.Hour, 1, true)
+		case k < 4:
+			return CmdCreateSubscription("s"+fmt.Sprint(rapid.IntRange(0, 3).Draw(t, l+".sn")), "db0", "rp0", "ALL", []string{"udp://h:9"})
+		case k == 4:
+			return CmdDropSubscription("s"+fmt.Sprint(rapid.IntRange(0, 3).Draw(t, l+".sn")), "db0", "rp0")
+		case k == 5:
+			n := rapid.IntRange(0, 3).Draw(t, l+".cn")
+			return CmdCreateCQ("db0", "cq"+fmt.Sprint(n), fmt.Sprintf("CREATE CONTINUOUS QUERY cq%d ON db0 BEGIN SELECT mean(v) INTO m2 FROM m GROUP BY time(1h) END", n))
+		case k == 6:
+			return CmdDropCQ("db0", "cq"+fmt.Sprint(rapid.IntRange(0, 3).Draw(t, l+".cn")))
+		}
+	}
+	return GenCmd(t, l)
+}
+
 // GenCmd draws one metadata command with arbitrary (valid, repeated,
 // conflicting, invalid) arguments from small universes.
 func GenCmd(t *rapid.T, l string) Cmd {
@@ -25,7 +59,7 @@ func GenCmd(t *rapid.T, l string) Cmd {
 	rp := rapid.SampledFrom(rps).Draw(t, l+".rp")
 	id := uint64(rapid.IntRange(0, 12).Draw(t, l+".id"))
 	ts := t2000 + rapid.SampledFrom(epochs).Draw(t, l+".epoch") + rapid.Int64Range(-2, 2).Draw(t, l+".ns")*rapid.SampledFrom([]int64{1, int64(time.Minute)}).Draw(t, l+".unit")
-	switch k := rapid.IntRange(0, 39).Draw(t, l+".kind"); {
+	switch k := rapid.IntRange(0, 41).Draw(t, l+".kind"); {
 	case k < 4:
 		return CmdCreateDataNode(fmt.Sprintf("d%d:8086", id%6), fmt.Sprintf("d%d:8088", id%6))
 	case k < 6:
@@ -102,12 +136,13 @@ func GenCmd(t *rapid.T, l string) Cmd {
 			return CmdCreateCQ(db, "cq"+fmt.Sprint(id%2), "CREATE CONTINUOUS QUERY cq ON db0 BEGIN SELECT mean(v) INTO m2 FROM m GROUP BY time(1h) END")
 		}
 		return CmdDropCQ(db, "cq"+fmt.Sprint(id%2))
-	case k < 38:
-		if rapid.Bool().Draw(t, l+".sub") {
-			return CmdCreateSubscription("s"+fmt.Sprint(id%2), db, rp, rapid.SampledFrom([]string{"ALL", "ANY", "bad"}).Draw(t, l+".mode"), []string{"udp://h:9"})
+	case k < 40:
+		// three names: a drop of the first of several shifts the rest
+		if rapid.IntRange(0, 2).Draw(t, l+".sub") > 0 {
+			return CmdCreateSubscription("s"+fmt.Sprint(id%3), db, rp, rapid.SampledFrom([]string{"ALL", "ANY", "bad"}).Draw(t, l+".mode"), []string{"udp://h:9"})
 		}
-		return CmdDropSubscription("s"+fmt.Sprint(id%2), db, rp)
-	case k < 39:
+		return CmdDropSubscription("s"+fmt.Sprint(id%3), db, rp)
+	case k < 41:
 		return CmdSetMetaNode(fmt.Sprintf("m%d:8091", id%3), fmt.Sprintf("m%d:8089", id%3), 7)
 	default:
 		if rapid.Bool().Draw(t, l+".legacy") {
